@@ -34,6 +34,6 @@ m = dict(version=1, setup_cmd="sh bin/setup",
                        kind_free_text="Coq 8.16 development (model, spec, checkers, proofs) + Go differential harness + Python driver")],
          checks=checks,
          not_applicable=[dict(property_id=p, reason=NA_REASON.get(p, "not yet claimed")) for p in ALL if p not in props.SPECS],
-         notes="bin/check <id> quick|thorough; VERIF_SEED seeds every random choice. known_findings.json lists recorded findings (D12) and fixed defects.")
+         notes="bin/check <id> quick|thorough; VERIF_SEED seeds every random choice. known_findings.json lists the recorded findings (D12, D13, D19: printed as KNOWN-FINDING, never suppressing a different violation) and the fixed defects (fixed: lines, suppress nothing).")
 json.dump(m, open(os.path.join(props.VERIF, 'MANIFEST.json'), 'w'), indent=1)
 print("checks:", len(checks), "not_applicable:", [x['property_id'] for x in m['not_applicable']])
